@@ -319,6 +319,8 @@ def _observe_side(ctx, step, side, obj, spec, t_obj, probes, base_measures):
             ("hash:equal", call(lambda a, b: hash(a) == hash(b), obj, Fw)),
             ("hash:set_merges", call(lambda a, b: len({a, b}) == 1, obj, Fw)),
         ]
+        if spec["t"] == "ConvexPolygon":
+            checks.append(("eq:X.eq_with_normal(F)", call(lambda a, b: a.eq_with_normal(b), obj, Fw)))
         for qn, r in checks:
             outs.append(disc(r))
             if r is True:
@@ -453,6 +455,8 @@ def execute(history, opts=None):
                 ctx.event(step, "SWITCH", "noop")
         else:
             ctx.event(step, kind, "unknown-op")
+        # abstract model state (coverage measure only)
+        ctx.count("state:%s/%s/moves=%d/t0=%s/ret=%s/copies=%d/%s" % (spec["t"], spec.get("form"), min(n_moves, 6), "y" if X.is_zero(t) else "n", "y" if R is not None else "n", min(len(copies), 3), kind))
     return _result(ctx, history)
 
 
